@@ -223,8 +223,28 @@ def search(ctx):
             seen.add(f["sig"])
             f["input"] = {k: sc[k] for k in ("K", "D", "x", "cent", "sizes", "offset", "spread")}
             fails.append(f)
+    # one data set of several thousand rows (in-memory arrays of that size are ordinary; internal batching must not lose rows)
+    big = big_scenario(ctx.seed + 5)
+    ctx.count("search:several-thousand-rows")
+    ctx.case(["big", ctx.seed], nontrivial=True)
+    f = oracle(big)
+    if f and f["sig"] not in seen:
+        f["input"] = {"big_seed": ctx.seed + 5}
+        fails.append(f)
     return fails
 
 
+def big_scenario(seed):
+    r = np.random.default_rng(seed)
+    K, D = 3, 2
+    N = int(r.integers(4097, 9000))
+    centers = r.normal(0, 4, size=(K, D))
+    lab = np.sort(r.integers(0, K, N))  # ordered data: the tail differs from the head
+    x = centers[lab] + r.normal(size=(N, D))
+    return dict(K=K, D=D, x=x, x_dtype=str(x.dtype), cent=centers + 0.2 * r.normal(size=(K, D)), sizes=(N // 3, N // 3, N - 2 * (N // 3)), spread=1.0, offset=0.0)
+
+
 def replay(d):
+    if "big_seed" in d["input"]:
+        return oracle(big_scenario(d["input"]["big_seed"]))
     return oracle(d["input"])
